@@ -21,6 +21,7 @@ EXPLANATION = (
     "the Windows platform test, (4) every other filesystem-mutating call in these functions is a violation. temporarySibling "
     "yields a sibling (same directory) whose name contains _secureEnoughString() and is opened with O_EXCL (requireCreate -> "
     "create()); _getFilename is executed symbolically on every path: temporary and final name differ for all inputs. "
+    "The handles the content goes through (FilePath.create/open, _saveTemp's open) are buffered, so a short write is retried or raises before the rename. "
     "Not decided: atomicity of rename itself, fsync/durability. "
     "Every anchor function is also checked to be entered on every call (no memoising/wrapping decorator, duplicate definition or rebinding). "
 )
@@ -36,6 +37,15 @@ def _ancestors(n, stop):
     while p is not None and p is not stop:
         yield p
         p = getattr(p, "_parent", None)
+
+
+def _unbuffered(c):
+    """open()/os.fdopen() asked for an unbuffered (raw) handle: third positional 0 or buffering=0."""
+    return (len(c.args) >= 3 and src(c.args[2]) == "0") or any(k.arg == "buffering" and src(k.value) == "0" for k in c.keywords)
+
+
+_SHORT_WRITE = ("the handle is raw (buffering=0): one f.write() is one write(2) whose short count is ignored, so on a nearly full disk / file-size limit a truncated "
+                "temporary is renamed over the target as if complete (a buffered handle retries and raises, leaving the old content)")
 
 
 def _writes_in_mode(c):
@@ -164,6 +174,15 @@ def _s_exclusive_open(ctx, S):
     fc = ctx.func(FP, "FilePath.create")
     ctx.check(any(isinstance(c, ast.Call) and call_name(c) == "os.open" and len(c.args) == 2 and src(c.args[0]) == "self.path" and src(c.args[1]) == "_CREATE_FLAGS" for c in ast.walk(fc)),
               "temporary/exclusive-create", "twisted.python.filepath.FilePath.create", "create() does not os.open(self.path, _CREATE_FLAGS)")
+    # the handles the content is written through are buffered
+    n = 0
+    for qual in ("FilePath.create", "FilePath.open"):
+        fn = ctx.func(FP, qual)
+        for c in ast.walk(fn):
+            if isinstance(c, ast.Call) and call_name(c) in ("os.fdopen", "open", "io.open", "io.FileIO", "FileIO"):
+                n += 1
+                ctx.check(not _unbuffered(c) and "FileIO" not in (call_name(c) or ""), "replace/complete-write-or-error", ctx.construct("twisted.python.filepath." + qual, c), _SHORT_WRITE)
+    ctx.floor("replace/complete-write-or-error", n, 2, "file objects created by FilePath.create/open")
 
 
 
@@ -242,13 +261,36 @@ def _s_savetemp(ctx, S):
     st_ = ctx.func(SOB, "Persistent._saveTemp")
     # _saveTemp opens exactly its argument for writing inside with
     pst = params(st_)
-    so = [c for c in walk_local(st_) if isinstance(c, ast.Call) and call_attr(c) in ("open", "_open")]
-    ok = len(so) == 1 and src(so[0].args[0]) == pst[1] and _writes_in_mode(so[0]) and isinstance(getattr(so[0], "_parent", None), ast.withitem)
+    dst = local_defs(st_, track_mutation=False)
+    so = [c for c in walk_local(st_) if isinstance(c, ast.Call) and call_name(c) in ("open", "_open", "io.open")]
+    lowopens = [c for c in walk_local(st_) if isinstance(c, ast.Call) and call_name(c) == "os.open"]
+    fdopens = [c for c in walk_local(st_) if isinstance(c, ast.Call) and call_name(c) == "os.fdopen"]
+    # two accepted shapes: open(<param>, "w…")  or  os.fdopen(os.open(<param>, flags), "w…")
+    ok = False
+    if len(so) == 1 and not lowopens and not fdopens:
+        ok = src(so[0].args[0]) == pst[1] and _writes_in_mode(so[0]) and isinstance(getattr(so[0], "_parent", None), ast.withitem)
+    elif not so and len(lowopens) == 1 and len(fdopens) == 1:
+        fdarg = resolve(fdopens[0].args[0], dst) if fdopens[0].args else None
+        ok = fdarg is not None and src(fdarg) == src(lowopens[0]) and src(lowopens[0].args[0]) == pst[1] and isinstance(getattr(fdopens[0], "_parent", None), ast.withitem)
     ctx.check(ok, "replace/handle-closed-by-with", QP + "._saveTemp", "_saveTemp does not open exactly its filename argument for writing inside a with block")
+    # the temporary starts empty: a leftover from an earlier crashed save must not survive behind shorter new content
+    for c in so:
+        mode = next((a.value for a in c.args[1:2] if isinstance(a, ast.Constant) and isinstance(a.value, str)), "r")
+        ctx.check("w" in mode or "x" in mode, "replace/temporary-starts-empty", ctx.construct(QP + "._saveTemp", "open(<temporary>, <mode>)"),
+                  f"the temporary is opened with mode {mode!r}, which neither truncates nor insists on a new file: stale bytes of an earlier interrupted save stay behind "
+                  f"the new content and are renamed into place with it")
+    for c in lowopens:
+        flags = {x.attr for x in ast.walk(c.args[1]) if isinstance(x, ast.Attribute)} if len(c.args) > 1 else set()
+        ctx.check(bool(flags & {"O_TRUNC", "O_EXCL"}), "replace/temporary-starts-empty", ctx.construct(QP + "._saveTemp", "os.open(<temporary>, <flags>)"),
+                  f"the temporary is opened with {sorted(flags)} - neither O_TRUNC nor O_EXCL: stale bytes of an earlier interrupted save (a longer '-2' file) stay behind "
+                  f"the new content and are renamed into place with it")
+    so = so + fdopens
+    for c in so:
+        ctx.check(not _unbuffered(c), "replace/complete-write-or-error", ctx.construct(QP + "._saveTemp", "open(<temporary>, 'wb')"), _SHORT_WRITE)
     dump = [c for c in walk_local(st_) if isinstance(c, ast.Call) and isinstance(c.func, ast.Name) and c.func.id == pst[2]]
     ctx.check(len(dump) == 1 and len(dump[0].args) == 2 and src(dump[0].args[0]) == "self.original" and any(isinstance(a, ast.With) for a in _ancestors(dump[0], st_)),
               "replace/content-written-once", QP + "._saveTemp", "_saveTemp does not dump self.original once into the open handle")
-    other = [c for c in walk_local(st_) if isinstance(c, ast.Call) and call_attr(c) in FS_MUTATORS and c not in so]
+    other = [c for c in walk_local(st_) if isinstance(c, ast.Call) and call_attr(c) in FS_MUTATORS and c not in so and c not in lowopens]
     ctx.check(not other, "replace/no-other-mutation", QP + "._saveTemp", f"_saveTemp also performs {[src(c) for c in other]}")
 
 
@@ -317,6 +359,13 @@ MUTANTS = [
     Mutant("unlink-before-write", FP, "        sib = self.temporarySibling(ext)\n        with sib.open(\"w\") as f:\n            f.write(content)\n        if platform.isWindows() and exists(self.path):\n            os.unlink(self.path)\n",
            "        sib = self.temporarySibling(ext)\n        if platform.isWindows() and exists(self.path):\n            os.unlink(self.path)\n        with sib.open(\"w\") as f:\n            f.write(content)\n",
            expect_rule="replace/final-removed-only-after-write"),
+    Mutant("temporary-handle-raw", FP, "        return cast(IO[bytes], os.fdopen(fdint, \"w+b\"))", "        return cast(IO[bytes], os.fdopen(fdint, \"w+b\", buffering=0))",
+           expect_rule="replace/complete-write-or-error"),
+    Mutant("sob-temporary-handle-raw", SOB, "        with open(filename, \"wb\") as f:", "        with open(filename, \"wb\", 0) as f:", expect_rule="replace/complete-write-or-error"),
+    Mutant("sob-temporary-not-truncated", SOB, "        with open(filename, \"wb\") as f:", "        with open(filename, \"r+b\" if os.path.exists(filename) else \"wb\") as f:",
+           expect_rule="replace/"),
+    Mutant("sob-temporary-opened-without-trunc", SOB, "        with open(filename, \"wb\") as f:", "        fd = os.open(filename, os.O_WRONLY | os.O_CREAT)\n        with os.fdopen(fd, \"wb\") as f:",
+           expect_rule="replace/temporary-starts-empty"),
     Mutant("sob-rename-swapped", SOB, "        os.rename(filename, finalname)\n", "        os.rename(finalname, filename)\n", expect_rule="replace/rename-temp-over-final"),
     Mutant("sob-unconditional-remove", SOB, "        if runtime.platformType == \"win32\" and os.path.isfile(finalname):", "        if os.path.isfile(finalname):", expect_rule="replace/final-removed-only-on-windows"),
     Mutant("temporary-without-random", FP, "            _secureEnoughString(ourPath) + self.clonePath(ourPath).basename() + ext", "            self.clonePath(ourPath).basename() + ext",
@@ -326,6 +375,7 @@ SILENT = [
     Silent("rename-local", FP, "        sib = self.temporarySibling(ext)\n        with sib.open(\"w\") as f:\n            f.write(content)\n        if platform.isWindows() and exists(self.path):\n            os.unlink(self.path)\n        os.rename(sib.path, self.asBytesMode().path)",
            "        temporary = self.temporarySibling(ext)\n        with temporary.open(\"w\") as out:\n            out.write(content)\n        if platform.isWindows() and exists(self.path):\n            os.unlink(self.path)\n        os.rename(temporary.path, self.asBytesMode().path)"),
     Silent("platform-test-order", FP, "        if platform.isWindows() and exists(self.path):\n            os.unlink(self.path)\n        os.rename(sib.path", "        if exists(self.path) and platform.isWindows():\n            os.unlink(self.path)\n        os.rename(sib.path"),
+    Silent("sob-temporary-via-os-open-trunc", SOB, "        with open(filename, \"wb\") as f:", "        fd = os.open(filename, os.O_WRONLY | os.O_CREAT | os.O_TRUNC, 0o600)\n        with os.fdopen(fd, \"wb\") as f:"),
     Silent("os-replace", SOB, "        os.rename(filename, finalname)\n", "        os.replace(filename, finalname)\n"),
     Silent("sob-nested-platform-test", SOB, "        if runtime.platformType == \"win32\" and os.path.isfile(finalname):\n            os.remove(finalname)\n",
            "        if runtime.platformType == \"win32\":\n            if os.path.isfile(finalname):\n                os.remove(finalname)\n"),
